@@ -107,7 +107,13 @@ LongCast(from, to) ==
 CastInvalid(from) ==
    \A to \in {"bool", "string", "f16", "c64", "c128", "bf16", "undefined"} :
       LET X == Vec(from, <<Fin(1), Fin(0)>>) IN
-      P(CaseRec("cast", "Cast", <<AI("to", OnnxCode(to))>>, <<LowerT(X)>>, SemCast(X, to), <<"invalid", "unsupported_target">>))
+      /\ P(CaseRec("cast", "Cast", <<AI("to", OnnxCode(to))>>, <<LowerT(X)>>, SemCast(X, to), <<"invalid", "unsupported_target">>))
+      \* the same refusal for a rank-0 and a rank-3 operand (a refused request leaves nothing behind: the cases that run after it in the
+      \* same process - all of them - are the witnesses)
+      /\ LET X0 == T(from, <<>>, <<Fin(1)>>) IN
+         P(CaseRec("cast", "Cast", <<AI("to", OnnxCode(to))>>, <<LowerT(X0)>>, SemCast(X0, to), <<"invalid", "unsupported_target", "scalar">>))
+      /\ LET X3 == T(from, <<1, 2, 1>>, <<Fin(1), Fin(0)>>) IN
+         P(CaseRec("cast", "Cast", <<AI("to", OnnxCode(to))>>, <<LowerT(X3)>>, SemCast(X3, to), <<"invalid", "unsupported_target", "rank3">>))
 
 Init ==
    \/ ("constant" \in Fams /\ st = [fam |-> "constant", done |-> FALSE])
